@@ -28,6 +28,79 @@ def IGraph.vsAttr (ig : IGraph) (name : String) : List Val :=
 /-- `ig.vs["_nx_name"]` -/
 def IGraph.vsNames (ig : IGraph) : List Int := ig.names
 
+/-- ANTLR parse tree (assumption V4): rule nodes and token leaves. A context handed to a listener
+method also knows its parent rule node (`ctx.parentCtx`). -/
+inductive PTree where
+  | node (rule : String) (children : List PTree)
+  | tok (text : Str)
+  deriving Repr
+
+structure PCtx where
+  self : PTree
+  parent : Option PTree := Option.none
+  deriving Repr
+
+namespace PTree
+def rule : PTree → String
+  | node r _ => r
+  | tok _ => ""
+def kids : PTree → List PTree
+  | node _ c => c
+  | tok _ => []
+mutual
+/-- `getText()`: concatenation of the token texts below the node -/
+def text : PTree → Str
+  | node _ c => textList c
+  | tok t => t
+def textList : List PTree → Str
+  | [] => []
+  | t :: ts => text t ++ textList ts
+end
+end PTree
+
+namespace PCtx
+/-- `ctx.children` (None for a rule node without children; the code checks `getChildCount` first) -/
+def children (c : PCtx) : List PCtx := c.self.kids.map (fun k => ⟨k, some c.self⟩)
+def getChildCount (c : PCtx) : Int := c.self.kids.length
+def getChild (c : PCtx) (i : Int) : M PCtx :=
+  match c.self.kids[i.toNat]? with
+  | some k => if i < 0 then throw .index else pure ⟨k, some c.self⟩
+  | Option.none => throw .index
+def getText (c : PCtx) : Str := c.self.text
+/-- `ctx.<rule>()` : the first child that is a `<rule>` node (`None` → AttributeError later; modelled as KeyError) -/
+def childRule (c : PCtx) (r : String) : M PCtx :=
+  match c.self.kids.find? (fun k => k.rule == r) with
+  | some k => pure ⟨k, some c.self⟩
+  | Option.none => throw .key
+/-- `ctx.<rule>(i)` -/
+def childRuleAt (c : PCtx) (r : String) (i : Int) : M PCtx :=
+  match (c.self.kids.filter (fun k => k.rule == r))[i.toNat]? with
+  | some k => if i < 0 then throw .index else pure ⟨k, some c.self⟩
+  | Option.none => throw .key
+/-- `ctx.parentCtx` -/
+def parentCtx (c : PCtx) : M PCtx :=
+  match c.parent with
+  | some p => pure ⟨p, Option.none⟩
+  | Option.none => throw .key
+end PCtx
+
+-- `ParseTreeWalker.walk(listener, tree)`: depth-first, document order; `enter` is the listener's
+-- dispatch on the rule name (no `exit*` method is overridden by the code under contract).
+mutual
+def PTree.walk {σ : Type} (enter : σ → PCtx → M σ) (parent : Option PTree) (t : PTree) (st : σ) : M σ :=
+  match t with
+  | .tok _ => pure st
+  | .node r cs => do
+    let st ← enter st ⟨.node r cs, parent⟩
+    PTree.walkList enter (some (.node r cs)) cs st
+def PTree.walkList {σ : Type} (enter : σ → PCtx → M σ) (parent : Option PTree) (ts : List PTree) (st : σ) : M σ :=
+  match ts with
+  | [] => pure st
+  | t :: rest => do
+    let st ← PTree.walk enter parent t st
+    PTree.walkList enter parent rest st
+end
+
 structure DepEnv where
   /-- iteration order of a freshly built `set` (hash-seed dependent): any permutation -/
   setOrder : {α : Type} → List α → List α
@@ -41,6 +114,8 @@ structure DepEnv where
   fmt6 : Val → Str
   /-- the `k`-th `random.shuffle` after `random.seed(seed)` -/
   shuffle : Val → Nat → List Int → List Int
+  /-- `nx.kamada_kawai_layout(g, dim=2)` (only with `calc_coordinates=True`; outside every property) -/
+  layout : Graph → Dict Int (List Val)
   /-- `datetime.now().strftime('%m%d%y%H%M')` -/
   nowStamp : Str
   /-- `tucan.__version__` -/
